@@ -1,5 +1,7 @@
 import LassoProofs.Lemmas.Clone
 import LassoProofs.C02
+import LassoModel.Extracted
+import LassoProofs.Lemmas.Config
 /-
   C12 — a clone is equal in content and completely independent of its source.
 
@@ -103,5 +105,30 @@ example : (match (Rodeo.new 255 2 1000).tryIntern C02.constEnv [1, 2, 3] true wi
       | .ok c => decide (c.len = 1 ∧ c.arena.usage = 3) && (c.str C02.constEnv 0 == some [1, 2, 3])
       | _ => false)
     | _ => false) = true := by decide
+
+/-! ### Tie to the source: cloning as effect sequences
+
+`Rodeo.tryClone` / `tryCloneFrom` (`LassoModel/Views.lean`) mirror `try_clone`, `try_clone_from` and their
+shared helper `clone_strings_into`.  The extractor regenerates their effects in evaluation order: the new
+arena is sized to the total length of the source's strings and limited by `max(source limit, that total)`;
+vector and table are pre-sized with the source's count; the hasher is cloned; `clone_from` first clears the
+target, takes over the source's hasher and reserves; the copy loop stores, pushes, hashes, probes, checks the key
+of the entry's position and inserts; nothing returns early. -/
+theorem clone_follows_model :
+    Extracted.tryCloneEffects =
+      [.sumLengths, .arenaSizedToContent, .propagate, .presizeExact, .presizeExact, .cloneHasher, .copyAll, .propagate] ∧
+    Extracted.tryCloneFromEffects =
+      [.clearTarget, .takeHasher, .reserve, .propagate, .reserve, .propagate, .copyAll, .propagate] ∧
+    Extracted.cloneCopyEffects =
+      [.loopBegin, .store, .propagate, .stringsPush, .hashOne, .probe, .keyCheck .loopIndex, .reject, .tableInsert,
+       .loopEnd] := by
+  decide
+
+/-- The code this file's theorems are about is the same under every feature configuration: the regenerated
+census of conditional compilation contains import blocks, whole serde impls, optional-dependency impls and
+module declarations only, and no gate inside any function body (`Lemmas/Config.lean`). -/
+theorem same_code_under_every_feature_configuration :
+    (Extracted.cfgGates.all fun g => g.kind != .other) = true ∧ Extracted.bodyGates.isEmpty = true :=
+  Lasso.one_code_base_for_all_configurations
 
 end Lasso.C12
